@@ -95,8 +95,12 @@ class Prop(PropBase):
         out = []
         self.solo_of = {}
         seq, solo = [], []
-        for ci, combo in enumerate(self.combos(rng, tier)):
-            name = f'c17_{ci}_' + '+'.join(combo)
+        # variant pairs once more with a forced order: the odd-slot variant (Bpearl v4, dual return, ...) runs to its end before the
+        # even-slot instance is even created, and the other way round
+        forced = [(c, m) for c in [('RSBP', 'RSBP'), ('RSP80', 'RSP80'), ('RS16', 'RS16'), ('RSHELIOS_16P', 'RSHELIOS_16P'), ('RSMX', 'RSMX')] for m in ('rev', 'fwd')]
+        allc = [(c, None) for c in self.combos(rng, tier)] + forced
+        for ci, (combo, force) in enumerate(allc):
+            name = f'c17_{ci}_' + '+'.join(combo) + (f'_{force}' if force else '')
             parts = []
             tz = rng.choice([0, 28800, -12600])      # the time zone is the process's, not an instance's
             for k, t in enumerate(combo):
@@ -123,7 +127,9 @@ class Prop(PropBase):
             rng.shuffle(order)
             if rng.random() < 0.5:          # sometimes strictly one after the other
                 order.sort(key=lambda k: (k if rng.random() < 0.9 else rng.random() * len(parts)))
-            kill = rng.choice(range(len(parts))) if rng.random() < 0.5 else None
+            if force:
+                order = sorted(order, reverse=(force == 'rev'))
+            kill = rng.choice(range(len(parts))) if (rng.random() < 0.5 and not force) else None
             kill_at = rng.randrange(len(order)) if kill is not None else None
             for n, k in enumerate(order):
                 if kill is not None and n == kill_at and created[kill] and kill not in destroyed:
